@@ -25,7 +25,8 @@ META = {
 
 
 STRENGTHS = {"Quadrupole": ["k1"], "Dipole": ["angle", "k1"], "RBend": ["angle", "k1"], "Solenoid": ["k"],
-             "HorizontalCorrector": ["angle"], "VerticalCorrector": ["angle"], "Cavity": ["V"]}
+             "HorizontalCorrector": ["angle"], "VerticalCorrector": ["angle"]}
+# (the cavity's R-matrix cancels catastrophically for |V| -> 0: a recorded C09 finding, not swept here)
 
 
 def weak(cls, rng):
@@ -131,6 +132,19 @@ def f32_case(rep, r: dict) -> None:
     K = float(os.environ.get("VERIF_F32_K", "64"))
     err = np.abs(a - b)[:, :6] / (K * eps * scale)
     _F32_STAT.append(float(np.nanmax(err)) * K)
+    if q["cls"] in ("Quadrupole", "Drift") and not any(q.get(k, 0.0) for k in ("mx", "my", "tilt")):
+        # transverse positions (aligned magnets: no cancellation against the misalignment) of drifts / quadrupoles: forward-error scale |x| + L|px| per particle, 20 eps32 (clean tree:
+        # <= 5.4 eps32 over 1500 long / weak / strong magnets)
+        ap = np.abs(P)
+        amp_f = math.cosh(min(math.sqrt(abs(q.get("k1", 0.0))) * L, 30.0))      # growth in the defocusing plane
+        for j, sc in ((0, ap[:, 0] + L * ap[:, 1]), (2, ap[:, 2] + L * ap[:, 3])):
+            e = np.abs(a[:, j] - b[:, j]) / (20 * eps * amp_f * np.maximum(sc, 1e-30))
+            if not np.all(e <= 1.0):
+                i = int(np.argmax(e))
+                rep.fail("falsifier", f"C12|float32-vs-float64|{F.COORD[j]}|{E.config_key(p)[0]}(bmadx)|{'long' if L >= 3 else 'short'}, per-particle scale",
+                         f"{p['cls']}(bmadx) ({', '.join(f'{k}={v!r}' for k, v in q.items() if k not in ('cls', 'method'))}) at {En!r} eV: particle {i} "
+                         f"{F.COORD[j]} = {a[i, j]!r} in float32, {b[i, j]!r} in float64 ({e[i] * 20:.3g} float32 eps x (|x| + L|px|))", r)
+                return
     if not np.all(err <= 1.0):
         i, j = np.unravel_index(int(np.argmax(np.nan_to_num(err, nan=np.inf))), err.shape)
         weak = "weak" if r.get("weak") else "normal"
@@ -153,11 +167,20 @@ def f32_probe(ctx, n: int) -> None:
             p = E.gen_params(rng, kind, force={"method": "bmadx"})
             if p["L"] == 0.0:
                 p["L"] = 0.4
+            if rng.random() < 0.4:          # long magnets in one step, weak or switched off
+                p["L"] = float(E.pick(rng, 6.0, 8.0, 10.0, 12.0))
+                if kind == "Quadrupole":
+                    p["k1"] = float(E.pick(rng, 0.0, 1 / 64, -1 / 32, 0.02)) 
+                    p["num_steps"] = 1
+                    p["tilt"], p["mx"], p["my"] = 0.0, 0.0, 0.0
         if weak:
             for k in ("k1", "angle"):
                 if k in p and not (kind == "Dipole" and k == "k1"):
                     p[k] = float(p[k]) * 10.0 ** float(-rng.uniform(1.0, 5.0))
-        r = {"kind": "f32_vs_f64", "params": p, "energy": float(E.energy(rng)), "particles": LT.gen_particles(rng, 6).tolist(), "weak": weak}
+        Pp = LT.gen_particles(rng, 6)
+        Pp[0, [1, 3, 5]] = 0.0            # pure offsets (the forward-error scale of x is then |x| alone)
+        Pp[1, [1, 3]] = 0.0
+        r = {"kind": "f32_vs_f64", "params": p, "energy": float(E.energy(rng)), "particles": Pp.tolist(), "weak": weak}
         rep.fals_cases += 1
         rep.count(f"f32-vs-f64:{kind}:{'weak' if weak else 'normal'}")
         rep.case(("f32", kind, weak), None)
